@@ -10,18 +10,11 @@ META = {
 }
 
 
-def _mc(c, *a, **k):
-    import os
-    if os.environ.get("VERIF_SKIP_MC"):  # speed-up for mutation testing only: the model does not depend on /repo
-        return None
-    return c.tlc_mc(*a, **k)
-
-
 def run(c):
-    _mc(c, "Identify", "MCIdentify.cfg")
-    _mc(c, "Identify", "MCIdentify_canary.cfg", expect=["OnlyAuthenticatedKey"])
-    _mc(c, "Identify", "MCIdentify_canary2.cfg", expect=["RecordOnlyIfSignedBySamePeer"])
-    _mc(c, "Identify", "MCIdentify_canary3.cfg", expect=["NoForeignPeerAddr"])
+    c.tlc_mc("Identify", "MCIdentify.cfg")
+    c.tlc_mc("Identify", "MCIdentify_canary.cfg", expect=["OnlyAuthenticatedKey"])
+    c.tlc_mc("Identify", "MCIdentify_canary2.cfg", expect=["RecordOnlyIfSignedBySamePeer"])
+    c.tlc_mc("Identify", "MCIdentify_canary3.cfg", expect=["NoForeignPeerAddr"])
     drv = c.build("drv-identify")
     if c.replay:
         t = c.rundir / "replay_trace.ndjson"
